@@ -300,6 +300,23 @@ pub fn items(tier: Tier, id: &str) -> Vec<Item> {
             out.push(Item { cfgs: c.to_vec(), f32_too: false });
         }
     }
+    if id == "C04" || id == "C03" {
+        // sweep of (chunk, ratio, max relative ratio) triples for the fixed-input types: sizes are
+        // products of three factors, and (chunk * ratio) * max and chunk * (ratio * max) differ by
+        // one frame for about one triple in a hundred. These configurations (max relative ratio 3
+        // or 5, which the main lattice does not use) get a light specification: ratio alphabet,
+        // one deviation, four default steps
+        for ratio in [1.2, 0.96, 0.91875, 0.7, 1.1] {
+            for m in [3.0, 5.0] {
+                let mut cfgs = Vec::new();
+                for chunk in 1..=64usize {
+                    cfgs.push(Cfg::fast(Kind::FI, ratio, m, chunk, Degree::Linear));
+                    cfgs.push(Cfg::sinc(Kind::SI, ratio, m, chunk, 8, 2, Interp::Linear, Kernel::Probe));
+                }
+                out.push(Item { cfgs, f32_too: false });
+            }
+        }
+    }
     if id == "C09" || id == "C03" {
         // every kernel a caller can select explicitly (new_with_interpolator), not only the one
         // the run-time dispatch picks on this machine
@@ -401,8 +418,11 @@ pub fn spec_for(id: &str, tier: Tier, cfg: &Cfg) -> Spec {
     } else {
         [128, 32, 12, 8]
     };
-    let alpha = if big { Alpha::Ratio } else { alpha };
-    let alpha_deep = if big { Alpha::Ratio } else { alpha_deep };
+    let light = cfg.kind.is_async() && (cfg.max_rel == 3.0 || cfg.max_rel == 5.0);
+    let horizon = if light { [4, 2, 2, 2] } else { horizon };
+    let bound = if light { 1 } else { bound };
+    let alpha = if big || light { Alpha::Ratio } else { alpha };
+    let alpha_deep = if big || light { Alpha::Ratio } else { alpha_deep };
     let signal = if id == "C10" || id == "C17" {
         Signal::Noise
     } else if cfg.kind.is_sinc() && cfg.kernel != Kernel::Probe {
